@@ -139,7 +139,7 @@ fn spec() -> BoxedStrategy<FnSpec> {
     ];
     let ret = prop_oneof![3 => Just(Ret::I64), 2 => Just(Ret::Res), 2 => Just(Ret::Opt), 1 => Just(Ret::Unit), 1 => Just(Ret::Str)];
     let key = prop_oneof![3 => "[a-z][a-z0-9_.]{0,8}", 1 => Just("ключ".to_string()), 1 => Just("k 😀".to_string()), 1 => Just("".to_string())];
-    let prop = (key, 0u8..5, any::<u8>()).prop_map(|(key, form, arg)| Prop { key, form, arg });
+    let prop = (key, 0u8..9, any::<u8>()).prop_map(|(key, form, arg)| Prop { key, form, arg });
     kind.prop_flat_map(move |k| {
         let is_async = matches!(k, Kind::AsyncFree | Kind::AsyncEop | Kind::AsyncMethod | Kind::AsyncTrait | Kind::BoxPinTail | Kind::AsyncBoxPin);
         (
@@ -314,7 +314,7 @@ fn render_body(s: &FnSpec, stmts: &[Stmt], out: &mut String, ind: usize, nfuncs_
             }
             Stmt::Call(j) => {
                 // call an earlier generated sync free function without formatted properties
-                let cands: Vec<&FnSpec> = nfuncs_before.iter().filter(|f| f.kind == Kind::Free && f.props.iter().all(|p| p.form == 0 || p.form == 3) && !f.args.iter().any(|a| *a == ArgTy::Str)).collect();
+                let cands: Vec<&FnSpec> = nfuncs_before.iter().filter(|f| f.kind == Kind::Free && f.props.iter().all(|p| p.form == 0 || p.form == 3 || p.form >= 5) && !f.args.iter().any(|a| *a == ArgTy::Str)).collect();
                 if !cands.is_empty() {
                     let f = cands[(*j as usize) % cands.len()];
                     let mut pre = String::new();
@@ -368,6 +368,15 @@ fn render_body(s: &FnSpec, stmts: &[Stmt], out: &mut String, ind: usize, nfuncs_
 fn fmt_string(p: &Prop, s: &FnSpec) -> (String, bool) {
     // returns (format string literal content, uses an argument)
     let usable: Vec<usize> = (0..s.args.len()).collect();
+    // literal values made of brace escapes only: closing without opening, opening without
+    // closing, reversed pairs (all legal format strings)
+    match p.form {
+        5 => return ("100%}}".into(), false),
+        6 => return ("a}}b}}".into(), false),
+        7 => return ("{{ open".into(), false),
+        8 => return ("}}{{".into(), false),
+        _ => {}
+    }
     if usable.is_empty() || p.form == 0 {
         return ("v-lit".into(), false);
     }
